@@ -53,27 +53,45 @@ class Source:
         self.trees, self.classes, self.funcs, self.modconsts, self.text = {}, {}, {}, {}, {}
         self.late_class_consts = {}   # e.g. ChannelItem.parent_eflr_class = ChannelSet (module-level attribute assignment)
         self.aliases = {}             # per module: local name -> imported name (import x as y)
+        here = os.path.dirname(os.path.dirname(os.path.abspath(__file__)))
+        files = []
         for dp, dn, fn in sorted(os.walk(self.root)):
             if 'tests' in dp.split(os.sep):
                 continue
             for f in sorted(fn):
-                if not f.endswith('.py'):
-                    continue
-                p = os.path.join(dp, f)
+                if f.endswith('.py'):
+                    files.append((os.path.join(dp, f), os.path.relpath(os.path.join(dp, f), self.root)))
+        # after the repository: source-level models of standard-library base classes, and the scenario (harness) functions of /verif.
+        # A name the repository defines itself always wins.
+        self.extra_modules = set()
+        for sub in ('pyvc/shims', 'scenarios'):
+            d = os.path.join(here, sub)
+            if os.path.isdir(d):
+                for f in sorted(os.listdir(d)):
+                    if f.endswith('.py') and f != '__init__.py':
+                        files.append((os.path.join(d, f), '<verif>/' + sub + '/' + f))
+        for p, rel in files:
+            if True:
+                extra = rel.startswith('<verif>/')
+                if extra:
+                    self.extra_modules.add(rel)
                 txt = open(p).read()
                 t = ast.parse(txt)
-                rel = os.path.relpath(p, self.root)
                 self.trees[rel] = t
                 self.text[rel] = txt
                 al = self.aliases.setdefault(rel, {})
                 for n in t.body:
                     if isinstance(n, ast.ClassDef):
+                        if extra and n.name in self.classes:
+                            continue
                         ci = ClassInfo(n.name, n, rel, rel)
                         self.classes[n.name] = ci
                         for nn, nd in ci.nested.items():
                             self.classes[n.name + '.' + nn] = ClassInfo(nn, nd, rel, rel)
                             self.classes.setdefault(nn, self.classes[n.name + '.' + nn])
                     elif isinstance(n, ast.FunctionDef):
+                        if extra and n.name in self.funcs:
+                            continue
                         self.funcs[n.name] = (n, rel)
                     elif isinstance(n, ast.Assign):
                         for tg in n.targets:
